@@ -375,8 +375,15 @@ def fields_used(prog, b):
                     for op in mu_ops(rv):
                         if op["o"] in ("copy", "move"):
                             places.append(op["pl"])
+            bdefs = mu.defs_of(bb) if bb is b else None
             for pl in places:
-                if pl["l"] == 1 and bb is b:
+                base = pl["l"]
+                if bb is b and base != 1 and pl["p"] and pl["p"][0] == "d":
+                    # `self` seen through a copy of the reference (the parameter of a helper inlined back: `self.class_bits()`)
+                    r0 = mu.ref_root(bb, bdefs, base)
+                    if r0 == 1:
+                        base = 1
+                if base == 1 and bb is b:
                     fs = [p["n"] for p in pl["p"] if isinstance(p, dict) and "f" in p and p["n"] is not None]
                     if fs:
                         out.add(fs[0])
